@@ -442,6 +442,9 @@ impl<'a> GenLin<'a> {
             10,                                                                      // 6 substitute
             if exts.is_empty() { 0 } else { 10 },                                    // 7 if
             3,                                                                       // 8 terminator early
+            // 9 arithmetic, a print, then a zero test of the arithmetic result: nothing a print
+            // call may clobber (flags, caller-saved registers) may carry the comparison
+            if room && self.cfg.allow_print && exts.len() >= 2 { 5 } else { 0 },
         ];
         let choice = if forced { if self.c.prob(170) { 0 } else { 3 } } else { self.c.weighted(&w) };
         match choice {
@@ -619,6 +622,26 @@ impl<'a> GenLin<'a> {
                 let e = self.gen_stmt(env, (size - 1) / 2);
                 self.nonzero = saved_nz;
                 ax::Statement::IfC(st::IfC { sort, fst: a, snd: b, thenc: Rc::new(t), elsec: Rc::new(e) })
+            }
+            9 => {
+                let a = env[exts[self.c.choose(exts.len())]].var.clone();
+                let b = env[exts[self.c.choose(exts.len())]].var.clone();
+                let c = env[exts[self.c.choose(exts.len())]].var.clone();
+                let op = if self.c.boolean() { ax::BinOp::Sub } else { ax::BinOp::Sum };
+                let y = self.fresh("y");
+                env.push(ext(y.clone()));
+                use st::ifc::IfSort::*;
+                let sort = [Equal, NotEqual, Less, GreaterOrEqual][self.c.choose(4)];
+                self.stats.prints += 1;
+                self.stats.print_env_sizes.push(env.len());
+                let saved_nz = self.nonzero.clone();
+                let t = self.gen_stmt(env.clone(), (size - 1) / 2);
+                self.nonzero = saved_nz.clone();
+                let e = self.gen_stmt(env, (size - 1) / 2);
+                self.nonzero = saved_nz;
+                let test = ax::Statement::IfC(st::IfC { sort, fst: y.clone(), snd: None, thenc: Rc::new(t), elsec: Rc::new(e) });
+                let print = ax::Statement::PrintI64(st::PrintI64 { newline: self.c.boolean(), var: c, next: Rc::new(test), free_vars_next: None });
+                ax::Statement::Op(st::Op { fst: a, op, snd: b, var: y, next: Rc::new(print), free_vars_next: None })
             }
             _ => self.gen_terminator(env),
         }
